@@ -8,6 +8,8 @@
 import GormModel.Lemmas.Where
 import GormModel.Lemmas.StmtReuse
 import GormModel.Lemmas.SchemaParse
+import GormModel.Lemmas.SoftDeleteMode
+import GormModel.Lemmas.AssocScope
 import GormModel.Props.C02
 namespace Gorm
 
